@@ -195,6 +195,8 @@ type ZOuter struct {
 	PM     *map[string]int   // a map behind a pointer
 	ME     map[string]string // has the empty string as a key
 	MAK    map[[2]interface{}]string
+	M64    map[int64]string  // has the key -1
+	MU64   map[uint64]string // has the key MaxUint64
 	Iface  interface{}
 	SF     ZShadowFirst
 	SL     ZShadowLast
@@ -255,6 +257,8 @@ func zooRoot(variant int) interface{} {
 		MK:    map[interface{}]string{"ik": "interface-key", ZKey("ik"): "entry-under-a-key-of-a-defined-string-type", 7: "entry-under-an-int-key", ZKey("only-named"): "entry-whose-key-exists-as-ZKey-only", "only-plain": "entry-whose-key-exists-as-string-only"},
 		ME:    map[string]string{"": "value-under-empty-key", "k": "v"},
 		MAK:   map[[2]interface{}]string{{"a", 1}: "entry-under-an-array-key"},
+		M64:   map[int64]string{-1: "entry-under-minus-one", 5: "entry-under-five"},
+		MU64:  map[uint64]string{1<<64 - 1: "entry-under-max-uint64", 5: "entry-under-five"},
 		Iface: ZInner{Val: 5, Name: "iface-inner"},
 		SF:    ZShadowFirst{Title: "sf-outer-title", ZBase: ZBase{ID: 1, Title: "sf-base-title"}},
 		SL:    ZShadowLast{ZBase: ZBase{ID: 2, Title: "sl-base-title"}, Title: "sl-outer-title"},
@@ -331,7 +335,13 @@ var zIfaceKeys = map[string]interface{}{"keyNamed": ZKey("ik"), "keyPlain": "ik"
 	"keyOnlyNamed": ZKey("only-named"), "keyPlainOfNamed": "only-named", "keyNamedOfPlain": ZKey("only-plain"),
 	// keys of an array type with interface elements: comparable as a type, hashable unless an element holds a slice
 	"keyCodePoint": int32('k'),
-	"keyArr":       [2]interface{}{"a", 1}, "keyArrAbsent": [2]interface{}{"b", 2}, "keyArrUnhashable": [2]interface{}{[]int{1}, 2}}
+	// numbers for maps with 64-bit integer keys: a number that is not representable in the key type is not in the map
+	"keyUMax": uint64(1<<64 - 1), "keyNeg1": -1, "keyFive8": int8(5), "keyBigU": uint64(1 << 63),
+	// slices where an array key is wanted: not keys (whatever reflect would be willing to convert)
+	"keySliceLong": []interface{}{"a", 1}, "keySliceShort": []interface{}{"a"},
+	"keyArr": [2]interface{}{"a", 1}, "keyArrAbsent": [2]interface{}{"b", 2}, "keyArrUnhashable": [2]interface{}{[]int{1}, 2}}
+
+func zIsInteger(k reflect.Kind) bool { return k >= reflect.Int && k <= reflect.Uintptr }
 
 // zHashable: whether v can be used as a map key (the type may say yes and the value no)
 func zHashable(v interface{}) (ok bool) {
@@ -450,7 +460,7 @@ func zResolve(root interface{}, steps []zStep) (val reflect.Value, st zStatus, w
 			}
 			k := reflect.ValueOf(s.I).Convert(d.Type().Key())
 			e := d.MapIndex(k)
-			if k.Convert(reflect.TypeOf(0)).Int() != int64(s.I) {
+			if k.Convert(reflect.TypeOf(0)).Int() != int64(s.I) || (s.I < 0 && k.CanUint()) {
 				e = reflect.Value{} // the number does not fit the key type: no such key
 			}
 			if !e.IsValid() {
@@ -467,6 +477,26 @@ func zResolve(root interface{}, steps []zStep) (val reflect.Value, st zStatus, w
 			}
 			if !zHashable(zIfaceKeys[s.Var]) {
 				return v, zErr, "key that cannot be hashed"
+			}
+			if kv, kt := reflect.ValueOf(zIfaceKeys[s.Var]), d.Type().Key(); zIsInteger(kv.Kind()) && zIsInteger(kt.Kind()) {
+				// a number is the key it is equal to, if the key type has one
+				c := kv.Convert(kt)
+				neg := func(x reflect.Value) bool { return x.CanInt() && x.Int() < 0 }
+				if c.Convert(kv.Type()).Interface() != kv.Interface() || neg(kv) != neg(c) {
+					if !last {
+						return reflect.Value{}, zErr, "step on the nil an absent key yields"
+					}
+					return reflect.Value{}, zNil, "number that the key type cannot hold"
+				}
+				e := d.MapIndex(c)
+				if !e.IsValid() {
+					if !last {
+						return reflect.Value{}, zErr, "step on the nil an absent key yields"
+					}
+					return reflect.Value{}, zNil, "absent key"
+				}
+				v = e
+				break
 			}
 			if !reflect.TypeOf(zIfaceKeys[s.Var]).AssignableTo(d.Type().Key()) {
 				return v, zErr, "key of another type"
@@ -624,12 +654,20 @@ func zOptions(v reflect.Value) (valid, invalid []zStep) {
 			invalid = append(invalid, zStep{Kind: "ikey", Var: "keySlice"}, zStep{Kind: "ikey", Var: "keyDeepUnhashable"}) // keys that cannot be hashed
 		} else if d.Type().Key().Kind() == reflect.Array {
 			valid = append(valid, zStep{Kind: "ikey", Var: "keyArr"}, zStep{Kind: "ikey", Var: "keyArrAbsent"})
-			invalid = append(invalid, zStep{Kind: "ikey", Var: "keyArrUnhashable"})
+			invalid = append(invalid, zStep{Kind: "ikey", Var: "keyArrUnhashable"}, zStep{Kind: "ikey", Var: "keySliceLong"}, zStep{Kind: "ikey", Var: "keySliceShort"})
 		} else {
 			for _, k := range keys {
+				if i := k.Convert(reflect.TypeOf(0)); i.Convert(k.Type()).Interface() != k.Interface() || (k.CanUint() && i.Int() < 0) {
+					continue // (a key that an int cannot spell)
+				}
 				valid = append(valid, zStep{Kind: "key", I: int(k.Convert(reflect.TypeOf(0)).Int())})
 			}
 			valid = append(valid, zStep{Kind: "key", I: 77})
+			if k := d.Type().Key().Kind(); k == reflect.Int64 || k == reflect.Uint64 {
+				for _, name := range []string{"keyUMax", "keyNeg1", "keyFive8", "keyBigU"} {
+					valid = append(valid, zStep{Kind: "ikey", Var: name})
+				}
+			}
 			if k := d.Type().Key().Kind(); k == reflect.Uint8 || k == reflect.Int8 {
 				valid = append(valid, zStep{Kind: "key", I: 300}, zStep{Kind: "key", I: 256}) // 300 is not 44, 256 is not 0
 			}
